@@ -470,6 +470,40 @@ bool prop_C18(Tape& t, Report& rep)
         gen::Root root = gen::gen_root(t, &rep, 60);
         rep.decoded = root.describe();
         if (!c18_one(root.cur, rep, root.describe())) return false;
+        // "neighbour" positions hashed back to back: the key must be computed from the position given, whatever was hashed
+        // just before.  Neighbours share as much as possible with the root: same squares occupied by the same colours but
+        // another kind of piece on one of them, the side-to-move twin, the sibling promotions of one pawn move.
+        {
+            int sq = int(t.choose(64));
+            for (int k = 0; k < 64; ++k, sq = (sq + 1) & 63)
+            {
+                char c = root.cur.b[sq];
+                if (c == '.' || ref::lower(c) == 'k' || ref::lower(c) == 'p') continue;
+                ref::Pos q = root.cur;
+                char nk = "nbrq"[t.choose(4)];
+                if (nk == ref::lower(c)) nk = nk == 'q' ? 'r' : 'q';
+                q.b[sq] = ref::is_white(c) ? char(std::toupper((unsigned char)nk)) : nk;
+                gen::fix_rights(q);
+                if (!ref::domain_violation(q).empty()) break;
+                rep.cls("c18:same_occupancy_other_piece_kind_back_to_back");
+                if (!c18_one(q, rep, "same occupancy, another piece kind on " + ref::sqname(sq) + ", hashed right after " + root.describe())) return false;
+                if (!c18_one(root.cur, rep, "hashed again right after its same-occupancy neighbour: " + root.describe())) return false;
+                break;
+            }
+            std::vector<ref::Move> lm = ref::legal_moves(root.cur);
+            for (auto& m : lm)
+                if (m.promo == 'q')
+                {
+                    for (char pc : {'q', 'r', 'b', 'n'})
+                    {
+                        ref::Move mm = m;
+                        mm.promo = pc;
+                        if (!c18_one(ref::make(root.cur, mm), rep, "sibling promotions hashed back to back: " + mm.uci() + " from " + root.describe())) return false;
+                    }
+                    rep.cls("c18:sibling_promotions_back_to_back");
+                    break;
+                }
+        }
         // all 16 subsets of the rights the position can carry
         for (int mask = 0; mask < 16; ++mask)
         {
